@@ -91,8 +91,8 @@ def nextHeight : Chain → Nat
 def byNumber? (c : Chain) (n : Nat) : Option Blk := c.find? (fun b => b.num == n)
 
 /-- Which variant of the code is modelled. `asFound` is the code as it is in /repo; the model
-follows the code: when `proposed-fixes/C06-isreverting-remote-height-zero.diff` is applied, set
-`zeroGuard := true` in `Cfg.asFound` (the theorems are stated for every `Cfg`). -/
+follows the code: when a proposed fix is applied, set the corresponding field in `Cfg.asFound`
+(the theorems are stated for every `Cfg`). -/
 structure Cfg where
   /-- `isReverting` returns `(0, true)` instead of `(remoteHeight-1, true)` when `remoteHeight = 0` -/
   zeroGuard : Bool
@@ -105,6 +105,12 @@ structure Cfg where
   confirmHead : Bool
 deriving DecidableEq, Repr, Inhabited
 
+/-- the code at the pinned commit, before any of the proposed fixes (the negation witnesses in
+`Props.lean` are about this variant and stay valid when `asFound` moves on) -/
+def Cfg.original : Cfg := ⟨false, false, false⟩
+
+/-- THE SWITCH: the variant /repo currently contains (used by the driver, i.e. by the
+correspondence check). Set a field to `true` when the corresponding proposed fix is applied. -/
 def Cfg.asFound : Cfg := ⟨false, false, false⟩
 
 /-- all proposed fixes applied -/
